@@ -1,3 +1,273 @@
-import VC2.Model.Stream
+/-
+  C01 — the validator accepts exactly the structurally conformant data-unit histories.
+  Property theorems only (helper lemmas: VC2/Proofs/Stream.lean).  The model is
+  VC2/Model/Stream.lean, tied to decoder/*.py by the `vd` correspondence.
+-/
+import VC2.Proofs.Stream
+import VC2.Model.SymReDriver
 namespace VC2.Props.C01
+open VC2 VC2.Model.SymRe VC2.Model.Stream VC2.Proofs.Stream
+
+/-- **Every rejection is a conformance error**: on every history of individually valid data
+    units (any length, any offsets, any numbers) the validator model ends with `ok`, a
+    `ConformanceError` class or the padding desynchronisation marker, never with a KeyError /
+    UnboundLocalError / TypeError / ZeroDivisionError.  Hypotheses: the level pattern admits a
+    sequence header first (true of every generated level pattern, `level_patterns_admit_header`)
+    and the parse code 0 is dispatched as a sequence header. -/
+theorem validate_never_crashes (cfg : Config)
+    (hlevel : (Matcher.init false cfg.levelPattern).matchSymbol "sequence_header" ≠ none)
+    (us : List DUnit) (hk : ∀ u ∈ us, KindOk u) : ¬ IsCrash (validate cfg us).1 :=
+  run_no_crash cfg hlevel us _ hk (inv_fresh 0 [])
+
+/-! ### each rule, exactly (one data unit against the state left by the units before it)
+
+The state components have the meaning recorded in `Model/Stream.lean`: `lastPI` the offset of the
+previous parse_info of this sequence, `nextOff` its next_parse_offset, `lastPicNum`/`numPics` the last
+picture number and the number of pictures of this sequence, `fragRemaining`/`fragReceived` the
+progress of the fragmented picture, the two matchers the progress of the ordering patterns. -/
+
+/-- **parse offsets, ordering patterns, profile and version rules**: `parse_info` accepts a unit
+    exactly when all of these hold -/
+theorem parse_info_accepts_iff (s : VState) (u : DUnit) :
+    (∃ s1, parseInfo s u = .ok s1) ↔
+      ((s.nextOff = none ∨ s.nextOff = some 0 ∨
+          ∃ last, s.lastPI = some last ∧ s.nextOff = some (s.pos - last)) ∧
+      (s.generic.matchSymbol (codeName u.code)).isSome = true ∧
+      (∀ lm, s.level = some lm → (lm.matchSymbol (codeName u.code)).isSome = true) ∧
+      (∀ p, s.profile = some p → profileAllows p u.code = true) ∧
+      ¬ (((s.majorVersion.map (fun (v : Nat) => (v : Int))).getD VC2.Gen.MINIMUM_MAJOR_VERSION)
+            < VC2.Gen.parse_code_version_implication u.code) ∧
+      (u.code = 0x10 → u.next = 0) ∧
+      (u.next = 0 → u.code = 0x10 ∨ isPicture u.code = true ∨ isFragment u.code = true) ∧
+      (u.next = 0 ∨ 13 ≤ u.next) ∧
+      (s.lastPI = none → u.prev = 0) ∧
+      (∀ last, s.lastPI = some last → u.prev = s.pos - last)) := by
+  unfold parseInfo
+  simp only [bind_ok, guardRej_ok, pure_ok, matchOrRej_ok]
+  constructor
+  · rintro ⟨s1, x, h1, g, hg, l, hl, _, h4, _, h5, _, h6, _, h7, _, h8, _, h9, _, h10, _⟩
+    refine ⟨(checkLastNext_ok s x).1 h1, by simp [hg], (levelStep_ok _ _).1 ⟨l, hl⟩, ?_, by simpa using h5, ?_, ?_, ?_, ?_, ?_⟩
+    · intro p hp; rw [hp] at h4; simpa using h4
+    · intro hc; simp [hc] at h6; exact h6
+    · intro hn
+      by_cases hc : u.code = 16
+      · exact Or.inl hc
+      · simp [hc, hn] at h7; right
+        cases hp : isPicture u.code with
+        | true => exact Or.inl rfl
+        | false => exact Or.inr (h7 hp)
+    · simp at h8; omega
+    · intro hl; rw [hl] at h9; simpa using h9
+    · intro last hl; rw [hl] at h10; simpa using h10
+  · rintro ⟨h1, h2, h3, h4, h5, h6, h7, h8, h9, h10⟩
+    obtain ⟨l, hl⟩ := (levelStep_ok _ _).2 h3
+    cases hg : s.generic.matchSymbol (codeName u.code) with
+    | none => rw [hg] at h2; cases h2
+    | some g =>
+      refine ⟨_, (), (checkLastNext_ok s ()).2 h1, g, rfl, l, hl, (), ?_, (), by simpa using h5, (), ?_, (), ?_, (), ?_, (), ?_, (), ?_, rfl⟩
+      · cases hp : s.profile with
+        | none => rfl
+        | some p => simp [h4 p hp]
+      · by_cases hc : u.code = 16
+        · simp [hc, h6 hc]
+        · simp [hc]
+      · by_cases hn : u.next = 0
+        · rcases h7 hn with h | h | h <;> simp [h]
+        · simp [hn]
+      · simp; omega
+      · cases hl : s.lastPI with
+        | none => simp [h9 hl]
+        | some last => rfl
+      · cases hl : s.lastPI with
+        | none => rfl
+        | some last => simp [h10 last hl]
+
+theorem picture_number_accepts_iff (s : VState) (n : Nat) :
+    (∃ s1, pictureNumberCheck s n = .ok s1) ↔
+      ((∀ last, s.lastPicNum = some last → n = (last + 1) % 4294967296) ∧
+       ∃ pcm, s.pcm = some pcm ∧ ¬ (pcm = 1 ∧ s.numPics % 2 = 0 ∧ n % 2 ≠ 0)) := by
+  unfold pictureNumberCheck
+  simp only [bind_ok, guardRej_ok, getOrCrash_ok, pure_ok]
+  constructor
+  · rintro ⟨s1, _, h1, pcm, hp, _, h2, _⟩
+    refine ⟨?_, pcm, hp, ?_⟩
+    · intro last hl; rw [hl] at h1; simpa using h1
+    · rintro ⟨a, b, c⟩; simp [a, b, c] at h2
+  · rintro ⟨h1, pcm, hp, h2⟩
+    refine ⟨_, (), ?_, pcm, hp, (), ?_, rfl⟩
+    · cases hl : s.lastPicNum with
+      | none => rfl
+      | some last => simp [h1 last hl]
+    · by_cases a : pcm = 1 <;> by_cases b : s.numPics % 2 = 0 <;> by_cases c : n % 2 = 0 <;> simp_all
+
+theorem data_fragment_accepts_iff (s : VState) (u : DUnit) :
+    (∃ s1, dataFragment s u = .ok s1) ↔
+      (s.fragRemaining ≠ 0 ∧ s.lastPicNum = some u.picNum ∧ u.sliceCount ≤ s.fragRemaining ∧
+        ∃ received sx, s.fragReceived = some received ∧ s.slicesX = some sx ∧ sx ≠ 0 ∧
+          u.fx = received % sx ∧ u.fy = received / sx) := by
+  unfold dataFragment
+  simp only [bind_ok, guardRej_ok, getOrCrash_ok]
+  constructor
+  · rintro ⟨s1, _, hrem, last, hlast, _, hnum, h⟩
+    have hne : s.fragRemaining ≠ 0 := by simpa using hrem
+    have hnum' : last = u.picNum := by simpa using hnum
+    split at h
+    · simp only [bind_ok, getOrCrash_ok, rej_ok] at h
+      obtain ⟨_, _, _, _, h⟩ := h; exact h.elim
+    · rename_i hle
+      simp only [bind_ok, getOrCrash_ok] at h
+      obtain ⟨received, hr, sx, hsx, h⟩ := h
+      split at h
+      · simp [crash_ok] at h
+      · rename_i hsx0
+        split at h
+        · simp only [bind_ok, getOrCrash_ok, rej_ok] at h
+          obtain ⟨_, _, h⟩ := h; exact h.elim
+        · rename_i hxy
+          simp at hxy
+          exact ⟨hne, by rw [hlast, hnum'], by omega, received, sx, hr, hsx, hsx0, hxy.1, hxy.2⟩
+  · rintro ⟨hne, hlast, hle, received, sx, hr, hsx, hsx0, hx, hy⟩
+    let s1 : VState :=
+      { s with fragReceived := some (received + u.sliceCount),
+               fragRemaining := s.fragRemaining - u.sliceCount,
+               decoded := if decide (received + u.sliceCount = sx * (s.slicesY.getD 0))
+                          then s.decoded ++ [u.picNum] else s.decoded }
+    refine ⟨s1, (), by simpa using hne, u.picNum, hlast, (), by simp, ?_⟩
+    rw [if_neg (by omega)]
+    simp only [bind_ok, getOrCrash_ok]
+    refine ⟨received, hr, sx, hsx, ?_⟩
+    rw [if_neg hsx0, if_neg (by simp [hx, hy])]
+    rfl
+
+theorem end_of_sequence_accepts_iff (s : VState) :
+    endOfSequence s = .ok () ↔
+      (s.generic.isComplete = true ∧ (∀ lm, s.level = some lm → lm.isComplete = true) ∧
+       s.fragRemaining = 0 ∧
+       ∃ pcm mv, s.pcm = some pcm ∧ s.majorVersion = some mv ∧
+         ¬ (pcm = 1 ∧ s.numPics % 2 ≠ 0) ∧
+         ((s.numPics = 0 ∧ mv = 3) ∨
+            ¬ ((mv : Int) > s.expectedVersion.getD VC2.Gen.MINIMUM_MAJOR_VERSION))) := by
+  unfold endOfSequence
+  simp only [bind_ok, guardRej_ok, getOrCrash_ok]
+  constructor
+  · rintro ⟨_, h1, _, h2, _, h3, pcm, hp, _, h4, mv, hm, h5⟩
+    refine ⟨by simpa using h1, ?_, by simpa using h3, pcm, mv, hp, hm, ?_, ?_⟩
+    · intro lm hl; rw [hl] at h2; simpa using h2
+    · rintro ⟨a, b⟩; simp [a, b] at h4
+    · by_cases a : s.numPics = 0 ∧ mv = 3
+      · exact Or.inl a
+      · right; intro hgt
+        have : (s.numPics == 0 && mv == 3) = false := by
+          by_cases x : s.numPics = 0 <;> by_cases y : mv = 3 <;> simp_all
+        simp [this, hgt] at h5
+  · rintro ⟨h1, h2, h3, pcm, mv, hp, hm, h4, h5⟩
+    refine ⟨(), by simpa using h1, (), ?_, (), by simpa using h3, pcm, hp, (), ?_, mv, hm, ?_⟩
+    · cases hl : s.level with
+      | none => rfl
+      | some lm => simp [h2 lm hl]
+    · by_cases a : pcm = 1 <;> by_cases b : s.numPics % 2 = 0 <;> simp_all
+    · rcases h5 with ⟨a, b⟩ | h5
+      · simp [a, b]
+      · simp [h5]
+
+
+/-! ### history-level consequences -/
+
+/-- **sequence header first**: the first data unit of an accepted (or accepted-so-far) sequence is
+    a sequence header -/
+theorem first_unit_is_sequence_header (s s1 : VState) (u : DUnit) (hi : Inv s) (hl : s.lastPI = none)
+    (hp : parseInfo s u = .ok s1) (hk : KindOk u) : u.kind = .seqHdr :=
+  first_is_header s s1 u hi hl hp hk
+
+/-- **end of sequence last**: a non-empty accepted stream ends with an end-of-sequence unit
+    (stated for any start state, so also for every suffix of a stream) -/
+theorem accepted_ends_with_end_of_sequence (cfg : Config) :
+    ∀ (us : List DUnit) (s : VState), (run cfg s us).1 = .ok →
+      (us = [] ∧ s.lastPI = none) ∨ ∃ e, us.getLast? = some e ∧ e.kind = .eos := by
+  intro us
+  induction us with
+  | nil =>
+    intro s h
+    unfold run at h
+    split at h
+    · rename_i hl; exact Or.inl ⟨rfl, by simpa using hl⟩
+    · cases h
+  | cons u rest ih =>
+    intro s h
+    rw [run_cons] at h
+    right
+    cases hp : parseInfo s u with
+    | error v => rw [hp] at h; exact absurd h (toVerdict_ne_ok v)
+    | ok s1 =>
+      rw [hp] at h
+      simp only at h
+      by_cases heos : u.kind = .eos
+      · rw [if_pos heos] at h
+        cases he : endOfSequence s1 with
+        | error v => rw [he] at h; exact absurd h (toVerdict_ne_ok v)
+        | ok _ =>
+          rw [he] at h; simp only at h
+          rcases ih _ h with ⟨hr, _⟩ | ⟨e, he1, he2⟩
+          · subst hr; exact ⟨u, rfl, heos⟩
+          · refine ⟨e, ?_, he2⟩
+            cases rest with
+            | nil => cases he1
+            | cons r rs => simpa [List.getLast?_cons_cons] using he1
+      · rw [if_neg heos] at h
+        by_cases hd : (u.kind = .aux ∨ u.kind = .padding) ∧ u.next ≠ u.len
+        · rw [if_pos hd] at h; cases h
+        · rw [if_neg hd] at h
+          cases hpl : payload cfg s1 u with
+          | error v => rw [hpl] at h; exact absurd h (toVerdict_ne_ok v)
+          | ok s2 =>
+            rw [hpl] at h; simp only at h
+            obtain ⟨g, lvl, ev, hg, hs1⟩ := parseInfo_ok s s1 u hp
+            have hl2 := payload_lastPI cfg s1 s2 u hpl
+            rcases ih _ h with ⟨_, hl⟩ | ⟨e, he1, he2⟩
+            · simp only at hl; rw [hl2.1, hs1] at hl; cases hl
+            · refine ⟨e, ?_, he2⟩
+              cases rest with
+              | nil => cases he1
+              | cons r rs => simpa [List.getLast?_cons_cons] using he1
+
+/-- **sequences are validated independently** (the structural half of C10): an accepted prefix
+    leaves nothing behind but the position and the decoded pictures -/
+theorem accepted_prefix_then_fresh (cfg : Config) (us1 us2 : List DUnit)
+    (h : (validate cfg us1).1 = .ok) :
+    validate cfg (us1 ++ us2) =
+      run cfg (VState.fresh (totalLen us1) (validate cfg us1).2) us2 := by
+  have := run_append_ok cfg us1 (VState.fresh 0 []) us2 (fun _ => rfl) h
+  simpa [validate, VState.fresh] using this
+
+/-- every level ordering pattern generated from level_sequence_restrictions.csv parses and admits a
+    sequence header as first data unit (the hypothesis of `validate_never_crashes`) -/
+theorem level_patterns_admit_header :
+    VC2.Gen.levelPatternTokens.all (fun p =>
+      match (parseRegex (p.2.map tokOf)).toOption with
+      | some ast => ((Matcher.init false ast).matchSymbol "sequence_header").isSome
+      | none => false) = true := by
+  decide +kernel
+
+/-! ### non-vacuity: a concrete accepted history and concrete rejected ones -/
+
+def cfg0 : Config := { pcm := 0, slicesX := 2, slicesY := 1, levelPattern := .star (.sym WILDCARD) }
+def hdr (prev : Nat) : DUnit := { kind := .seqHdr, code := 0, len := 30, next := 30, prev := prev, majorVersion := 3, profile := 3 }
+def pic (n prev : Nat) : DUnit := { kind := .picture, code := 232, len := 50, next := 50, prev := prev, picNum := n }
+def fr0 (n prev : Nat) : DUnit := { kind := .fragment, code := 236, len := 40, next := 40, prev := prev, picNum := n }
+def frd (n c x y prev : Nat) : DUnit := { kind := .fragment, code := 236, len := 45, next := 45, prev := prev, picNum := n, sliceCount := c, fx := x, fy := y }
+def eos (prev : Nat) : DUnit := { kind := .eos, code := 16, len := 13, next := 0, prev := prev }
+
+example : validate cfg0 [hdr 0, pic 7 30, fr0 8 50, frd 8 1 0 0 40, frd 8 1 1 0 45, eos 45] = (.ok, [7, 8]) := by
+  decide +kernel
+example : (validate cfg0 [hdr 0, pic 7 30, pic 9 50, eos 50]).1 = .reject "NonConsecutivePictureNumbers" := by
+  decide +kernel
+example : (validate cfg0 [hdr 0, frd 8 1 0 0 30, eos 45]).1 = .reject "TooManySlicesInFragmentedPicture" := by
+  decide +kernel
+example : (validate cfg0 [hdr 0, fr0 8 30, frd 8 1 1 0 40, eos 45]).1 = .reject "FragmentSlicesNotContiguous" := by
+  decide +kernel
+example : (validate cfg0 [hdr 0, fr0 8 30, pic 9 40, eos 50]).1 = .reject "PictureInterleavedWithFragmentedPicture" := by
+  decide +kernel
+example : (validate cfg0 [hdr 0, pic 7 30, eos 51]).1 = .reject "InconsistentPreviousParseOffset" := by
+  decide +kernel
+
 end VC2.Props.C01
